@@ -159,6 +159,9 @@ func opDec(kind string, data []byte) string {
 	if strings.HasPrefix(out, "ok") && acceptedWithTaggedLabel(kind, data) {
 		out += " TAGGED-LABEL"
 	}
+	if strings.HasPrefix(out, "ok") && !strings.Contains(out, "TAGGED-LABEL") && strippedTagWhereChecked(kind, data) {
+		out += " TAGGED-LABEL(self-described tag in a type-checked value)"
+	}
 	if strings.HasPrefix(out, "ok") {
 		if why := structureOfAccepted(kind, data); why != "" {
 			out += " BAD-STRUCTURE(" + strings.ReplaceAll(why, " ", "_") + ")"
